@@ -98,7 +98,7 @@ func init() {
 			"number vs string pairs are asserted for every number below 1e15 in magnitude; the decimal text is the plain positional one (1000000, 0.0000001), never an exponent form",
 		},
 		MinNontrivial: 1000,
-		Floor:         []string{"num-num.same-type", "num-num.mixed-type", "num-num.signed-unsigned", "num-num.int-float", "str-str", "num-str", "str-num", "triple.num", "triple.str", "sql.where", "sql.in", "sql.in.long", "sql.between", "sql.order", "sql.join.hash", "sql.join.loop", "sql.join.mixed-type", "sql.join.num-str"},
+		Floor:         []string{"num-num.same-type", "num-num.mixed-type", "num-num.signed-unsigned", "num-num.int-float", "str-str", "num-str", "str-num", "triple.num", "triple.str", "sql.where", "sql.in", "sql.in.long", "sql.between", "sql.order", "sql.order.second-key", "sql.join.hash", "sql.join.loop", "sql.join.mixed-type", "sql.join.num-str"},
 		Phases: []fw.Phase{
 			{Name: "pairs", N: func(t fw.Tier) int { return nPairs() }, Run: c15Pair, Batch: 0},
 			{Name: "sql", N: func(t fw.Tier) int { return pick(t, 1200, 20000) }, Run: c15SQL},
@@ -136,11 +136,10 @@ func exactDecimal(v any) string {
 	if !exact {
 		return ""
 	}
-	bits := 64
-	if _, is32 := v.(float32); is32 {
-		bits = 32 // the decimal text of a float32 is its shortest 32-bit representation
-	}
-	s := strconv.FormatFloat(f, 'f', -1, bits)
+	// the decimal text of a number is the text of its value: a float32 has the
+	// text of the float64 holding the same value (numbers that are equal have
+	// one text, so equality stays transitive across numbers and strings)
+	s := strconv.FormatFloat(f, 'f', -1, 64)
 	if strings.ContainsAny(s, "eE") {
 		return ""
 	}
@@ -308,7 +307,9 @@ func c15Triples(c *fw.Case) {
 var c15SQLNums = []any{int(1), int8(1), uint(1), float64(1), uint8(200), float64(200), int16(200), float32(2), int64(2), uint64(3), int32(3), float64(1.5), float32(1.5), int(-1), float64(-1), int8(-1),
 	uint16(65535), int32(65535), float64(65535), uint32(70000), int(70000), float64(0), int(0), uint8(0), float32(0.25), float64(0.25), int64(42), float64(42), uint(42),
 	// integers that print with an exponent as floats: here they come as integer types only
-	int(1000003), int64(1000003), uint32(1000003), int(4000000), uint64(4000000), float64(1000003), float64(4000000), float64(1500000)}
+	int(1000003), int64(1000003), uint32(1000003), int(4000000), uint64(4000000), float64(1000003), float64(4000000), float64(1500000),
+	// single-precision values that are not short in binary, next to the doubles of the same decimal text and of the same value
+	float32(0.1), float64(0.1), float64(float32(0.1)), float32(0.3), float64(0.3), float64(0.30000001), float32(-0.7), float64(-0.7)}
 var c15SQLStrs = []any{"1", "200", "3", "42", "1.5", "-1", "x", "0", "65535", "2", "1000003", "4000000", "1500000", "1e+06"}
 
 // c15SQL: the comparison as WHERE, IN, ORDER BY and joins use it.
@@ -331,7 +332,8 @@ func c15SQL(c *fw.Case) {
 	outOfDomain := false
 	asLit := func(v any) any {
 		if val.IsNumber(v) {
-			f, _ := val.Rat(v).Float64()
+			// the text the literal is written with (a float32 prints its shortest 32-bit form)
+			f, _ := strconv.ParseFloat(fmt.Sprint(v), 64)
 			return f
 		}
 		return v
@@ -452,6 +454,17 @@ func c15SQL(c *fw.Case) {
 		if desc {
 			sql += " DESC"
 		}
+		// a second key decides among rows whose first keys are equal by value,
+		// whatever Go types they arrived as
+		second, desc2 := c.Chance(0.6), c.Chance(0.5)
+		if second {
+			perm := c.R.Perm(len(lt))
+			for i, r := range lt {
+				r.(map[string]any)["t"] = float64(perm[i])
+			}
+			sql = "SELECT id, k, t FROM lt ORDER BY k" + map[bool]string{true: " DESC", false: ""}[desc] + ", t" + map[bool]string{true: " DESC", false: " ASC"}[desc2]
+			c.Feature("sql.order.second-key")
+		}
 		o := Run(doc(), sql)
 		c.Evals(1)
 		c.Feature("sql.order")
@@ -468,6 +481,13 @@ func c15SQL(c *fw.Case) {
 			if w > 0 {
 				c.Violate("sql-order", fmt.Sprintf("ORDER BY placed %s before %s", show15(keyOf(o.Rows[i-1])), show15(keyOf(o.Rows[i]))), det)
 				return
+			}
+			if w == 0 && second {
+				ta, tb := val.Deref(o.Rows[i-1].(map[string]any)["t"]).(float64), val.Deref(o.Rows[i].(map[string]any)["t"]).(float64)
+				if ta > tb != desc2 {
+					c.Violate("sql-order", fmt.Sprintf("rows with equal first keys %s and %s are not ordered by the second key (%v then %v)", show15(keyOf(o.Rows[i-1])), show15(keyOf(o.Rows[i])), ta, tb), det)
+					return
+				}
 			}
 		}
 		c.Nontrivial(sql + val.Canon(lt))
